@@ -83,7 +83,9 @@ func errCode(err error) int {
 
 // ---------------------------------------------------------------- string generators
 var goodNames = []string{"a", "b", "c", "abc", "code", "method", "job", "x_1", "_x", "x__y", "A", "zz", "le", "quantile",
-	"0abc", "a b", "a.b", "naïve", "日本", "\U0001F600", "a\x00", "l", "lf", "q", "é", "_", "x_"}
+	"0abc", "a b", "a.b", "naïve", "日本", "\U0001F600", "a\x00", "l", "lf", "q", "é", "_", "x_",
+	// legal under UTF-8 validation although they look like internal markers / unusual first characters
+	"$x", "$", "$region", "$a", "$le", " x", ".", "-", "a$", "#", "{", "=", "\"", "\\", "ÿ"}
 var badNames = []string{"", "__x", "__", "__name__", "\xff", "a\xc0\xaf", "\xed\xa0\x80", "\xf4\x90\x80\x80", "\xe2\x82", "a\x80",
 	"\xc1\xbf", "\xf5\x80\x80\x80", "\xe0\x9f\xbf", "\xf0\x8f\xbf\xbf", "ab\xc3"}
 var goodValues = []string{"", "v", "1", "value", "GET", "200", "üö", "a b c", "\U0001F600", "\xed\x9f\xbf", "\xee\x80\x80", "\xf4\x8f\xbf\xbf",
@@ -413,6 +415,9 @@ func constCase(r *emit.Rng, bad int) []oneCase {
 	return out
 }
 
+// vectors found blocked after a recovered panic (each costs a watchdog period; three are evidence enough)
+var liveHangs int
+
 var kindNames = []string{"counter", "gauge", "counterfunc", "gaugefunc", "untypedfunc", "countervec", "gaugevec", "histogram", "histogramvec", "summary", "summaryvec"}
 
 func liveCase(r *emit.Rng, bad int) []oneCase {
@@ -499,6 +504,10 @@ func liveCase(r *emit.Rng, bad int) []oneCase {
 		}
 		var coll prometheus.Collector
 		var met prometheus.Metric
+		var vec interface {
+			prometheus.Collector
+			Reset()
+		}
 		panicked := ""
 		func() {
 			defer func() {
@@ -536,6 +545,7 @@ func liveCase(r *emit.Rng, bad int) []oneCase {
 				} else {
 					x = prometheus.NewCounterVec(copts, vars)
 				}
+				vec = x
 				coll, met = x, x.WithLabelValues(d.lvs...)
 			case 6:
 				gopts := prometheus.GaugeOpts{Namespace: ns, Subsystem: sub, Name: name, Help: d.help, ConstLabels: cl}
@@ -545,6 +555,7 @@ func liveCase(r *emit.Rng, bad int) []oneCase {
 				} else {
 					x = prometheus.NewGaugeVec(gopts, vars)
 				}
+				vec = x
 				coll, met = x, x.WithLabelValues(d.lvs...)
 			case 7:
 				x := prometheus.NewHistogram(hopts)
@@ -556,6 +567,7 @@ func liveCase(r *emit.Rng, bad int) []oneCase {
 				} else {
 					x = prometheus.NewHistogramVec(hopts, vars)
 				}
+				vec = x
 				coll, met = x, x.WithLabelValues(d.lvs...).(prometheus.Metric)
 			case 9:
 				x := prometheus.NewSummary(sopts)
@@ -567,6 +579,7 @@ func liveCase(r *emit.Rng, bad int) []oneCase {
 				} else {
 					x = prometheus.NewSummaryVec(sopts, vars)
 				}
+				vec = x
 				coll, met = x, x.WithLabelValues(d.lvs...).(prometheus.Metric)
 			}
 		}()
@@ -591,9 +604,46 @@ func liveCase(r *emit.Rng, bad int) []oneCase {
 				tags = append(tags, "quantile:variable/"+cfgNames[cfg%10])
 			}
 		}
+		// a rejected child creation must leave the vector usable: collect, create again, reset, under a watchdog
+		if panicked != "" && vec != nil && liveHangs < 3 {
+			done := make(chan struct{})
+			go func() {
+				defer close(done)
+				ch := make(chan prometheus.Metric, 16)
+				go func() {
+					for range ch {
+					}
+				}()
+				vec.Collect(ch)
+				close(ch)
+				func() {
+					defer func() { recover() }()
+					switch v := vec.(type) {
+					case *prometheus.CounterVec:
+						v.WithLabelValues(d.lvs...)
+					case *prometheus.GaugeVec:
+						v.WithLabelValues(d.lvs...)
+					case *prometheus.HistogramVec:
+						v.WithLabelValues(d.lvs...)
+					case *prometheus.SummaryVec:
+						v.WithLabelValues(d.lvs...)
+					}
+				}()
+				vec.Reset()
+			}()
+			select {
+			case <-done:
+			case <-time.After(2 * time.Second):
+				panicked = "hung"
+				liveHangs++
+			}
+		}
 		var impl string
 		nontriv := false
 		switch panicked {
+		case "hung":
+			impl = emit.C(3) // the vector is unusable after the recovered panic: a violation whatever the inputs
+			tags = append(tags, "result:vector-blocked-after-panic")
 		case "label":
 			impl = emit.C(0)
 			tags = append(tags, "result:panic-reserved-label")
